@@ -20,6 +20,29 @@ func outcomeJ(o Outcome) J {
 	return j
 }
 
+// the case's variables with two of them (of different declared types) replaced by unreadable texts
+func twoBadVars(c *Case) map[string]string {
+	badText := map[string]string{"number": "12,5", "account": "a b", "monetary": "USD", "portion": "abc"}
+	out := copyVars(c.RawVars)
+	seen := map[string]bool{}
+	n := 0
+	for _, d := range c.Decls {
+		dj := d.(J)
+		t, _ := dj["type"].(string)
+		name, _ := dj["name"].(string)
+		if _, supplied := c.RawVars[name]; !supplied || seen[t] || badText[t] == "" {
+			continue
+		}
+		seen[t] = true
+		out[name] = badText[t]
+		n++
+		if n == 2 {
+			return out
+		}
+	}
+	return nil
+}
+
 func balEqual(a interpreter.Balances, b map[string]map[string]int64) bool {
 	if len(a) != len(b) {
 		return false
@@ -230,6 +253,17 @@ func cmdConc(args []string) {
 			nruns++
 		}
 		line["repeats_exact"] = ex
+		// ... and with two supplied variables unreadable at once (which one is reported must not depend on the
+		// iteration order of the caller's map)
+		if bad := twoBadVars(c); bad != nil {
+			rb := []any{}
+			for k := 0; k < 24; k++ {
+				rb = append(rb, outcomeJ(runParsed(bg, p, copyVars(bad), fresh(), c.FlagOvd)))
+				nruns++
+			}
+			line["repeats_bad"] = rb
+			line["badvars"] = bad
+		}
 		// flags: on / off
 		on := runParsed(bg, p, copyVars(c.RawVars), fresh(), true)
 		off := runParsed(bg, p, copyVars(c.RawVars), fresh(), false)
